@@ -34,6 +34,14 @@ type PoolEntry struct{ Name, Hash string }
 
 var pool []PoolEntry
 
+// Extended adds to the pool mailbox names as the storage.Store interface accepts them (set by the C10 driver
+// before the first use): mixed case, names differing only in case or in a trailing dot, +tag, @domain, blanks,
+// non-ASCII, invalid UTF-8, a slash, a NUL byte, and a very long name. The file store only ever hashes the name.
+var Extended bool
+
+var oddNames = []string{"Support-Desk", "ALICE", "alice", "bob+tag", "carol@Example.COM", "two words", "dot.", "dot",
+	"\u00fcn\u00ef-\u00e7\u00f8de", "\xff\xfe\x80bad", "a/b", "nul\x00byte", strings.Repeat("long-Name.", 23)}
+
 // Pool returns seven mailbox names: 0 and 1 share the 6-hex-digit (level 2) directory, 2 shares
 // only the 3-digit (level 1) directory with them, 3..6 each have a first-level directory of their own. Found by search over the
 // real stringutil.HashMailboxName, so the shared-parent branches of removeDir are exercised.
@@ -75,6 +83,11 @@ func Pool() []PoolEntry {
 		if !used[h[:3]] {
 			used[h[:3]] = true
 			pool = append(pool, PoolEntry{n, h})
+		}
+	}
+	if Extended {
+		for _, n := range oddNames {
+			pool = append(pool, PoolEntry{n, stringutil.HashMailboxName(n)})
 		}
 	}
 	return pool
